@@ -123,13 +123,13 @@ theorem relPreAt_dead {cfg : Cfg} {P : List Pend} {tbl : List MSess} {e : Sess} 
     · left; exact hr
 
 /-- **one entry moves** -/
-theorem sim_one_op {cfg : Cfg} {d d' : RState} {m : Mon} {o : Obs} (hs : Sim cfg d m) {op : Op}
+theorem sim_one_op' {cfg : Cfg} {d d' : RState} {m : Mon} {o : Obs} (hs : Sim cfg d m) {op : Op}
     {i : Nat} {G : Sess → Sess} {st1 st2 : State} {P : List Pend} {status : St} {hdr : Option Name} {hang : Bool} {done0 : List (Tag × Nat)}
     {log : List LogEnt} {ns' na' : Nat} {rel' : List Nat} {tblX : List MSess}
     (hmo : modelOp d op = some { st := st1, status := status, hdr := hdr, hang := hang, done := done0, log := log, pend := P, nslow := ns', nasync := na', released := rel' })
     (hset : st1 = st2 ∨ settle st1 = st2)
     (htbl : st2.tbl = d.st.tbl.map (lift i G)) (hG : KeepsId G) (hcfg : st2.cfg = d.st.cfg) (hnext : st2.next = d.st.next)
-    (hnow : st2.now = d.st.now) (hfl : st2.faults = d.st.faults) (hinv : Inv st2)
+    (hnow : st2.now = d.st.now) (hinv : Inv st2)
     (hpw : PendOkW P ns' na' rel' d.st.next)
     (hcntP : ∀ j, j ≠ i → nsOf P j = nsOf d.pend j ∧ nrOf P j = nrOf d.pend j)
     (hliveP : ∀ p ∈ P, ∀ j, sidOf p = some j → j ≠ i → keepOf d.st p = true)
@@ -147,7 +147,7 @@ theorem sim_one_op {cfg : Cfg} {d d' : RState} {m : Mon} {o : Obs} (hs : Sim cfg
     (hnoid : chkNoId cfg op.req status hdr = false)
     (hmint : chkMint cfg m.tbl op.req status hdr = none)
     (hhdr : ∀ h, hdr = some h → h = sname i ∧ (monFind tblX (sname i)).isSome = true)
-    (hnotick : nowAfter m op = m.now) (hfault : faultsAfter m op status = m.faults)
+    (hnotick : nowAfter m op = m.now) (hfault : faultsAfter m op status = st2.faults)
     (hcnt : countersAfter m op status = (ns', na'))
     (hop : replayOp d op = some (d', o)) :
     (monStep cfg m op o).viol = none ∧ Sim cfg d' (monStep cfg m op o).mon := by
@@ -300,7 +300,7 @@ theorem sim_one_op {cfg : Cfg} {d d' : RState} {m : Mon} {o : Obs} (hs : Sim cfg
       rw [hbd, htc.1]; exact hnf _
     · rw [e2, hnotick, hnow]; exact hs.now
     · rw [e5]; show faultsAfter m op status = _
-      rw [hfault, hfl]; exact hs.faults
+      exact hfault
     · rw [e6]; show (countersAfter m op status).1 = _; rw [hcnt]
     · rw [e7]; show (countersAfter m op status).2 = _; rw [hcnt]
     · rw [e3]
@@ -311,5 +311,37 @@ theorem sim_one_op {cfg : Cfg} {d d' : RState} {m : Mon} {o : Obs} (hs : Sim cfg
       rw [hexp, hnotick, hrun, runOf_filter_keep]
     · have hpw' : PendOkW P ns' na' rel' st2.next := by rw [hnext]; exact hpw
       exact hpw'.strong
+
+/-- … with the event store's script unchanged -/
+theorem sim_one_op {cfg : Cfg} {d d' : RState} {m : Mon} {o : Obs} (hs : Sim cfg d m) {op : Op}
+    {i : Nat} {G : Sess → Sess} {st1 st2 : State} {P : List Pend} {status : St} {hdr : Option Name} {hang : Bool} {done0 : List (Tag × Nat)}
+    {log : List LogEnt} {ns' na' : Nat} {rel' : List Nat} {tblX : List MSess}
+    (hmo : modelOp d op = some { st := st1, status := status, hdr := hdr, hang := hang, done := done0, log := log, pend := P, nslow := ns', nasync := na', released := rel' })
+    (hset : st1 = st2 ∨ settle st1 = st2)
+    (htbl : st2.tbl = d.st.tbl.map (lift i G)) (hG : KeepsId G) (hcfg : st2.cfg = d.st.cfg) (hnext : st2.next = d.st.next)
+    (hnow : st2.now = d.st.now) (hfl : st2.faults = d.st.faults) (hinv : Inv st2)
+    (hpw : PendOkW P ns' na' rel' d.st.next)
+    (hcntP : ∀ j, j ≠ i → nsOf P j = nsOf d.pend j ∧ nrOf P j = nrOf d.pend j)
+    (hliveP : ∀ p ∈ P, ∀ j, sidOf p = some j → j ≠ i → keepOf d.st p = true)
+    (hbook : bookDone m.now
+      (bookSlots (bookAnswer cfg (effFaults cfg m) m.now (tagOf m op) m.tbl m.pend op status).1
+        (bookAnswer cfg (effFaults cfg m) m.now (tagOf m op) m.tbl m.pend op status).2 m.run op status).1
+      (bookAnswer cfg (effFaults cfg m) m.now (tagOf m op) m.tbl m.pend op status).2 done0 = (tblX, P.filterMap pendOf))
+    (hrun : (bookSlots (bookAnswer cfg (effFaults cfg m) m.now (tagOf m op) m.tbl m.pend op status).1
+        (bookAnswer cfg (effFaults cfg m) m.now (tagOf m op) m.tbl m.pend op status).2 m.run op status).2 = P.filterMap runOf)
+    (hmonX : ∀ j, j ≠ i → monFind tblX (sname j) = monFind m.tbl (sname j))
+    (hnodupX : (tblX.map (·.name)).Nodup) (hmintedX : ∀ a ∈ tblX, ∃ j, j < d.st.next ∧ a.name = sname j)
+    (htarget : ∀ e ∈ d.st.tbl, e.id = i → EOk cfg d.st.now (nsOf P i) (nrOf P i) (G e) ∧ RelPreAt cfg P tblX (G e))
+    (hans : chkAnswerO cfg (effFaults cfg m) m.tbl op.req status = none)
+    (hlog : chkLog cfg op.req status log = none)
+    (hnoid : chkNoId cfg op.req status hdr = false)
+    (hmint : chkMint cfg m.tbl op.req status hdr = none)
+    (hhdr : ∀ h, hdr = some h → h = sname i ∧ (monFind tblX (sname i)).isSome = true)
+    (hnotick : nowAfter m op = m.now) (hfault : faultsAfter m op status = m.faults)
+    (hcnt : countersAfter m op status = (ns', na'))
+    (hop : replayOp d op = some (d', o)) :
+    (monStep cfg m op o).viol = none ∧ Sim cfg d' (monStep cfg m op o).mon :=
+  sim_one_op' hs hmo hset htbl hG hcfg hnext hnow hinv hpw hcntP hliveP hbook hrun hmonX hnodupX hmintedX htarget hans hlog hnoid hmint hhdr hnotick
+    (hfault.trans (hs.faults.trans hfl.symm)) hcnt hop
 
 end Sessions
